@@ -8,6 +8,8 @@
 #include <orc/orcutils-private.h>
 
 #include <string.h>
+#include <errno.h>
+#include <limits.h>
 #include <stdlib.h>
 #include <stdio.h>
 
@@ -541,6 +543,24 @@ orc_parse_handle_init (OrcParser *parser, const OrcLine *line)
   return 1;
 }
 
+/* a decimal, hexadecimal or octal integer of at least @min that fills the
+ * whole token; anything else is reported and 0 is returned */
+static int
+orc_parse_number (OrcParser *parser, const char *token, long min, int *value)
+{
+  char *end;
+  long v;
+
+  errno = 0;
+  v = strtol (token, &end, 0);
+  if (end == token || *end != 0 || errno == ERANGE || v < min || v > INT_MAX) {
+    orc_parse_add_error (parser, "bad number \"%s\"", token);
+    return 0;
+  }
+  *value = (int) v;
+  return 1;
+}
+
 static int
 orc_parse_handle_flags (OrcParser *parser, const OrcLine *line)
 {
@@ -563,29 +583,33 @@ orc_parse_handle_dotn (OrcParser *parser, const OrcLine *line)
       if (i == line->n_tokens - 1) {
         orc_parse_add_error (parser, ".n mult requires multiple value");
       } else {
-        orc_program_set_n_multiple (parser->program,
-            strtol (line->tokens[i+1], NULL, 0));
+        int value;
+        if (orc_parse_number (parser, line->tokens[i+1], 0, &value))
+          orc_program_set_n_multiple (parser->program, value);
         i++;
       }
     } else if (strcmp (line->tokens[i], "min") == 0) {
       if (i == line->n_tokens - 1) {
         orc_parse_add_error (parser, ".n min requires multiple value");
       } else {
-        orc_program_set_n_minimum (parser->program,
-            strtol (line->tokens[i+1], NULL, 0));
+        int value;
+        if (orc_parse_number (parser, line->tokens[i+1], 0, &value))
+          orc_program_set_n_minimum (parser->program, value);
         i++;
       }
     } else if (strcmp (line->tokens[i], "max") == 0) {
       if (i == line->n_tokens - 1) {
         orc_parse_add_error (parser, ".n max requires multiple value");
       } else {
-        orc_program_set_n_maximum (parser->program,
-            strtol (line->tokens[i+1], NULL, 0));
+        int value;
+        if (orc_parse_number (parser, line->tokens[i+1], 0, &value))
+          orc_program_set_n_maximum (parser->program, value);
         i++;
       }
     } else if (i == line->n_tokens - 1) {
-      orc_program_set_constant_n (parser->program,
-          strtol (line->tokens[i], NULL, 0));
+      int value;
+      if (orc_parse_number (parser, line->tokens[i], 0, &value))
+        orc_program_set_constant_n (parser->program, value);
     } else {
       orc_parse_add_error (parser, "unknown .n token '%s'", line->tokens[i]);
     }
@@ -604,7 +628,8 @@ orc_parse_handle_dotm (OrcParser *parser, const OrcLine *line)
     return 0;
   }
 
-  size = strtol (line->tokens[1], NULL, 0);
+  if (!orc_parse_number (parser, line->tokens[1], 0, &size))
+    return 0;
   orc_program_set_constant_m (parser->program, size);
 
   return 1;
@@ -622,15 +647,17 @@ orc_parse_handle_source (OrcParser *parser, const OrcLine *line)
     return 0;
   }
 
-  size = strtol (line->tokens[1], NULL, 0);
+  if (!orc_parse_number (parser, line->tokens[1], 1, &size))
+    return 0;
   var = orc_program_add_source (parser->program, size, line->tokens[2]);
   for(i=3;i<line->n_tokens;i++){
     if (strcmp (line->tokens[i], "align") == 0) {
       if (i == line->n_tokens - 1) {
         orc_parse_add_error (parser, ".source align requires alignment value");
       } else {
-        int alignment = strtol (line->tokens[i+1], NULL, 0);
-        orc_program_set_var_alignment (parser->program, var, alignment);
+        int alignment;
+        if (orc_parse_number (parser, line->tokens[i+1], 0, &alignment))
+          orc_program_set_var_alignment (parser->program, var, alignment);
         i++;
       }
     } else if (i == line->n_tokens - 1) {
@@ -656,15 +683,17 @@ orc_parse_handle_dest (OrcParser *parser, const OrcLine *line)
     return 0;
   }
 
-  size = strtol (line->tokens[1], NULL, 0);
+  if (!orc_parse_number (parser, line->tokens[1], 1, &size))
+    return 0;
   var = orc_program_add_destination (parser->program, size, line->tokens[2]);
   for(i=3;i<line->n_tokens;i++){
     if (strcmp (line->tokens[i], "align") == 0) {
       if (i == line->n_tokens - 1) {
         orc_parse_add_error (parser, ".source align requires alignment value");
       } else {
-        int alignment = strtol (line->tokens[i+1], NULL, 0);
-        orc_program_set_var_alignment (parser->program, var, alignment);
+        int alignment;
+        if (orc_parse_number (parser, line->tokens[i+1], 0, &alignment))
+          orc_program_set_var_alignment (parser->program, var, alignment);
         i++;
       }
     } else if (i == line->n_tokens - 1) {
@@ -689,7 +718,8 @@ orc_parse_handle_accumulator (OrcParser *parser, const OrcLine *line)
     return 0;
   }
 
-  size = strtol (line->tokens[1], NULL, 0);
+  if (!orc_parse_number (parser, line->tokens[1], 1, &size))
+    return 0;
   var = orc_program_add_accumulator (parser->program, size, line->tokens[2]);
   if (line->n_tokens > 3) {
     orc_program_set_type_name (parser->program, var, line->tokens[3]);
@@ -708,7 +738,8 @@ orc_parse_handle_constant_str (OrcParser *parser, const OrcLine *line)
     return 0;
   }
 
-  size = strtol (line->tokens[1], NULL, 0);
+  if (!orc_parse_number (parser, line->tokens[1], 1, &size))
+    return 0;
 
   orc_program_add_constant_str (parser->program, size, line->tokens[3], line->tokens[2]);
 
@@ -726,7 +757,8 @@ orc_parse_handle_constant_str (OrcParser *parser, const OrcLine *line)
           line->tokens[0]); \
       return 0; \
     } \
-    size = strtol (line->tokens[1], NULL, 0); \
+    if (!orc_parse_number (parser, line->tokens[1], 1, &size)) \
+      return 0; \
     orc_program_add_ ## ITEM (parser->program, size, line->tokens[2]); \
     return 1; \
   }
